@@ -67,7 +67,7 @@ Names == <<
   "C10_CompleteByAssignee", "C10_NodeSelfOnly", "C10_CancelByCreator", "C10_PayerConsent", "C10_RenewPayerIsSigner",
   "C11_KeptWhilePaid", "C11_ReleasedAtEnd", "C11_ModelOutlivesShards", "C11_NothingOverdue", "C11_OrderGoesWithModel",
   "C12_Rescheduled", "C12_StoredOrderUntouched", "C12_ResolvedByBound", "C12_ReplicasAccounted", "C12_MigrationUntouched",
-  "C13_OrderShardsExist", "C13_ShardListedByItsOrder", "C13_CompletedShardScheduled", "C13_AliasBijection",
+  "C13_OrderShardsExist", "C13_ShardListedByItsOrder", "C13_CompletedShardScheduled", "C13_AliasBijection", "C13_HandOverHasSource",
   "C14_UsedIsSum", "C14_WorkerIsSum", "C14_ShardPledgedIsSum", "C14_PoolIsSum",
   "C15_Placement",
   "C17_BindingFunctional", "C17_ListMatchesBinding", "C17_SidPayAddrBound", "C17_KidInjective", "C17_BindingProven", "C17_PayAddrChange",
@@ -126,6 +126,7 @@ Verdict(name, x, g) ==
     [] name = "C13_ShardListedByItsOrder"-> V(TRUE, C13_ShardListedByItsOrder(s))
     [] name = "C13_CompletedShardScheduled" -> V(TRUE, C13_CompletedShardScheduled(s))
     [] name = "C13_AliasBijection"       -> V(TRUE, C13_AliasBijection(s))
+    [] name = "C13_HandOverHasSource"    -> V(TRUE, C13_HandOverHasSource(s))
     [] name = "C14_UsedIsSum"            -> V(TRUE, C14_UsedIsSum(s))
     [] name = "C14_WorkerIsSum"          -> V(TRUE, C14_WorkerIsSum(s))
     [] name = "C14_ShardPledgedIsSum"    -> V(TRUE, C14_ShardPledgedIsSum(s))
